@@ -206,6 +206,25 @@ def _in_buffer_code(E):
     return fr is not None and "replay_buffer" in fr.qualname
 
 
+@LIB.fn("numpy.empty_like", doc="numpy.empty_like(prototype, dtype=None, shape=None): new array with the prototype's shape and dtype unless overridden, contents arbitrary")
+def np_empty_like(E, prototype, dtype=None, order="K", subok=True, shape=None):
+    if shape is None:
+        shape = _sym_attr(E, prototype, "shape") if not isinstance(prototype, (NDArr, Tensor)) else prototype.shape
+    if dtype is None:
+        if isinstance(prototype, NDArr):
+            dtype = prototype.dtype
+        elif isinstance(prototype, Tensor):
+            dtype = "int" if prototype.sort == INT else ("bool" if prototype.sort == BOOL else "float")
+        elif isinstance(prototype, Sym) and prototype.z.sort() == VAL:
+            # the dtype of an opaque payload is whatever that VALUE happens to be (python int, float32 array, ...):
+            # a tag of its own, different from every declared dtype
+            dtype = f"dtype_of({prototype.z})"
+        else:
+            z = C.to_z3(prototype)
+            dtype = "int" if z.sort() == INT else ("bool" if z.sort() == BOOL else "float")
+    return np_empty(E, shape, dtype)
+
+
 @LIB.fn("numpy.asarray", doc="numpy.asarray: value-preserving conversion")
 def np_asarray(E, v, dtype=None, **kw):
     if isinstance(v, (list, tuple)):
